@@ -23,9 +23,10 @@ Round 3 dimensions:
     (partly, completely, repeatedly), not only by filling.  Classes: pre-fileno-history[-with-reads],
     stream-filled-and-drained-before-fileno.
   * message sizes include 0 (empty CHANNEL_DATA / EXTENDED_DATA string, legal per RFC 4254 5.2), before and after
-    fileno().  Class zero-length-feed.  On the unchanged tree this shows a genuine defect (open finding
+    fileno().  Class zero-length-feed.  This showed a genuine defect (finding
     "readable-with-nothing-pending|buffer-event-set-after-zero-length-feed", replays/C24/zero-length-data-marks-descriptor-readable.json,
-    fixes/C24-empty-feed-marks-descriptor-readable.patch); it is NOT excluded from the generator.
+    fixes/C24-empty-feed-marks-descriptor-readable.patch; recorded as fixed, commit 31f2947, in known_findings.d/C24.json); it was never
+    excluded from the generator.
 
 Round 4 dimensions:
   * WHERE the first fileno() happens ("first_fileno"): "seq" - sequentially after the pre-history (as before) - or "task" - it is an
